@@ -181,7 +181,7 @@ PROPS = {
                            "the hash is abstract in the theorems: a digest result is recorded as 'format(H(these bytes))'"],
         design_ref="DESIGN.md section 5, C16",
         level_text="State-machine model of the lazy digest logic of genericBlock / httpRequestBlock / httpResponseBlock with an invariant preserved by every accessor; theorems for arbitrary call sequences: digests and size always describe the complete block, "
-                   "every reader of a cached block yields the identical bytes from the start, a further content access on an uncached block fails with the explicit error. Correspondence on blocks built directly over cached / one-shot sources and on blocks of built and parsed records",
+                   "every reader of a cached block yields the identical bytes from the start, a further content access on an uncached block fails with the explicit error. Correspondence on blocks built directly over cached / one-shot sources and on blocks of built and parsed records, made with the syntax repair on or off, HTTP heads with and without their terminating blank line (with the repair on the accessors describe the block INCLUDING the appended CRLF)",
         level_note="Trusted: Lean kernel, correspondence harness (blocks are constructed through an overlay export). Modelled by hand: block.go, httpblock.go accessor logic.",
     ),
     "C20": dict(
